@@ -74,12 +74,16 @@ type recBackend struct {
 	checkpoints   [][]byte
 	ensureBefores int
 	keep          bool
+	last          []byte // the latest checkpoint payload = what a crash leaves on disk
+	n             int
 }
 
 func (b *recBackend) Checkpoint(data []byte) error {
 	if b.keep {
 		b.checkpoints = append(b.checkpoints, append([]byte(nil), data...))
 	}
+	b.last = append(b.last[:0], data...)
+	b.n++
 	return nil
 }
 func (b *recBackend) EnsureBefore(d time.Duration) { b.ensureBefores++ }
@@ -126,6 +130,7 @@ type world struct {
 	// set by the failure-snapshot logic of C01
 	problems []string
 	starts   []string // log of handler starts since last restart: "t1/do"
+	crashes  int
 }
 
 // close to the real clock: notice expiry inside the state compares with time.Now() directly
